@@ -10,6 +10,7 @@ from __future__ import annotations
 import asyncio
 import codecs
 import time
+from pathlib import Path
 
 from vf.gen import bytesgen
 from vf.models.respparse import expected_client_result
@@ -47,6 +48,7 @@ def setup(ctx):
     ctx.require("monitor", "l3_raw_mode_calls", 6)
     ctx.require("monitor", "overlapping_calls", 40)
     ctx.require("monitor", "late_tail_calls", 40)
+    ctx.require("monitor", "l3_connect_stall_calls", 16)
 
 
 CAP = 10 * 1024 * 1024
@@ -463,6 +465,87 @@ def run_l3(ctx):
                      sample={"level": "L3", "entry": entry, "stage": spec["stage"], "termination": spec["termination"], "stream": data[:60], "result": str(res)[:100]})
 
 
+def run_l3_connect_stall(ctx):
+    """The peer that never finishes may stop before it has said anything at all: TCP accepted, then silence (or
+    the first few bytes of a TLS record and then silence).  The call must be cut off at the timeout with an error
+    that names a timeout - on every entry point, with and without pinning, with and without redirect following."""
+    import socket
+    import tempfile
+    import threading
+
+    from nauyaca.client.session import GeminiClient
+
+    srv = socket.socket()
+    srv.bind(("127.0.0.1", 0))
+    srv.listen(16)
+    port = srv.getsockname()[1]
+    conns = []
+    mode = {"prefix": b""}
+
+    def acc():
+        while True:
+            try:
+                c, _ = srv.accept()
+            except OSError:
+                return
+            conns.append(c)
+            if mode["prefix"]:
+                try:
+                    c.sendall(mode["prefix"])
+                except OSError:
+                    pass
+
+    threading.Thread(target=acc, daemon=True).start()
+    tmp = tempfile.mkdtemp(prefix="vf-c13-")
+    TMO = 1.0
+    try:
+        for prefix_name, prefix in (("silent", b""), ("partial-tls-record", b"\x16\x03\x03\x00\x7a\x02\x00")):
+            mode["prefix"] = prefix
+            for entry in ("get", "get-following-redirects", "upload", "delete"):
+                for tofu in (False, True):
+                    url = f"gemini://127.0.0.1:{port}/x"
+
+                    async def go():
+                        kw = {"trust_on_first_use": tofu}
+                        if tofu:
+                            kw["tofu_db_path"] = Path(tmp) / "pins.db"
+                        c = GeminiClient(timeout=TMO, **kw)
+                        if entry == "get":
+                            return await c.get(url, follow_redirects=False)
+                        if entry == "get-following-redirects":
+                            return await c.get(url)
+                        if entry == "delete":
+                            return await c.delete(url)
+                        return await c.upload(url, b"abc", mime_type="text/plain")
+
+                    t0 = time.monotonic()
+                    try:
+                        resp = asyncio.run(go())
+                        res = ("response", resp.status, resp.meta)
+                    except BaseException as e:  # noqa: BLE001
+                        res = ("error", type(e).__name__, str(e)[:120])
+                    dt = time.monotonic() - t0
+                    ctx.count("monitor", "l3_connect_stall_calls")
+                    wit = {"level": "L3", "entry": entry, "peer": "accepts TCP, " + prefix_name + ", never completes the handshake", "pinning": tofu, "result": res, "elapsed": round(dt, 2), "timeout": TMO}
+                    if res[0] != "error" or "imeout" not in res[1] + res[2]:
+                        ctx.violation(f"no-timeout:stage=before-handshake:entry={entry}", f"peer stalled before the TLS handshake but the call ended with {res} after {dt:.1f}s", wit)
+                    elif dt > TMO * 4 + 3:
+                        ctx.violation(f"no-timeout:late:stage=before-handshake:entry={entry}", f"timeout {TMO}s but the call took {dt:.1f}s", wit)
+                    else:
+                        ctx.count("outcome", "L3:stall-before-handshake:timeout-error")
+                    ctx.case(("L3", "stall-before-handshake", prefix_name, entry, tofu, res[0]), True, sample=wit)
+    finally:
+        srv.close()
+        for c in conns:
+            try:
+                c.close()
+            except OSError:
+                pass
+        import shutil
+
+        shutil.rmtree(tmp, ignore_errors=True)
+
+
 def run_l3_overlap(ctx):
     """Several calls in flight at the same time on ONE GeminiClient (as a relay or a crawler uses it): every
     call must end as it would alone - its own stream, its own error - whatever the others do meanwhile."""
@@ -631,3 +714,5 @@ def run(ctx):
         run_l3_overlap(ctx)
     if ctx.shard < 4 or ctx.nshards == 1:
         run_l3_late_tail(ctx)
+    if ctx.mine(5):
+        run_l3_connect_stall(ctx)
